@@ -682,6 +682,9 @@ class TransverselyIsotropic(_Elastic):
             dtype=dtype,
         )
 
+        # the compliance is positive definite iff -1 < vt and 1 - vt - 2 vl² Et/El > 0 (then kt > 0)
+        assert np.all(1 - vt - 2 * vl**2 * Et / El > 0), "1 - vt - 2 vl² Et/El > 0"
+
         material_sM = Heterogeneous_Array(material_sM)
 
         material_cM = np.array(
@@ -1012,6 +1015,17 @@ class Orthotropic(_Elastic):
         assert np.all(np.abs(v23) < np.sqrt(E2 / E3)), "|v23| < sqrt(E2 / E3)"
         assert np.all(np.abs(v13) < np.sqrt(E1 / E3)), "|v13| < sqrt(E1 / E3)"
         assert np.all(np.abs(v12) < np.sqrt(E1 / E2)), "|v12| < sqrt(E1 / E2)"
+        # the 2x2 bounds above are necessary only: the compliance is positive definite iff its determinant is too
+        delta = (
+            1
+            - v12**2 * E2 / E1
+            - v23**2 * E3 / E2
+            - v13**2 * E3 / E1
+            - 2 * v12 * v23 * v13 * E3 / E1
+        )
+        assert np.all(
+            delta > 0
+        ), "1 - v12² E2/E1 - v23² E3/E2 - v13² E3/E1 - 2 v12 v23 v13 E3/E1 > 0"
 
         material_sM = Heterogeneous_Array(material_sM)
 
